@@ -210,7 +210,7 @@ fn plain_cases(tier: Tier) -> Vec<Case> {
                     for b in seqs(&[L::SendAddr, L::SendWSnd], 1) {
                         for c in seqs(&[L::SendAddr, L::CallAddr], 1) {
                             for d in seqs(&[L::SendSnd, L::ForceWSnd], 1) {
-                                v.push(make_case(&[a.clone(), b.clone(), c.clone(), d], mb, work, false, false, Some(4)));
+                                v.push(make_case(&[a.clone(), b.clone(), c.clone(), d], mb, work, false, false, Some(7)));
                             }
                         }
                     }
